@@ -7,6 +7,15 @@ open Ckl Ckl.C05
 
 variable {I : Rel} {s0 : State}
 
+theorem GTr.dateResM (r : DateRes) (pos : Pos) : GTr I s0 (dateResM r pos) := by
+  unfold Ckl.dateResM; gtr_auto
+macro_rules | `(tactic| gtr_lemma) => `(tactic| exact GTr.dateResM _ _)
+
+theorem GTr.callDate (name : String) (args : List (String × RVal)) (pos : Pos) (m : EvalM RVal)
+    (h : callDate name args pos = some m) : GTr I s0 m := by
+  unfold Ckl.callDate at h
+  split at h <;> first | (injection h with h; subst h; exact GTr.dateResM _ _) | (cases h)
+
 theorem GTr.nativeAdd (a b : RVal) (pos : Pos) : GTr I s0 (nativeAdd a b pos) := by
   unfold Ckl.nativeAdd; gtr_auto
 macro_rules | `(tactic| gtr_lemma) => `(tactic| exact GTr.nativeAdd _ _ _)
@@ -33,7 +42,7 @@ theorem GTr.callPure (name : String) (args : List (String × RVal)) (d : Option 
     (m : EvalM RVal) (h : callPure name args d pos = some m) : GTr I s0 m := by
   unfold Ckl.callPure at h
   split at h
-  all_goals (cases h)
+  all_goals first | (cases h) | (exact GTr.callDate _ _ _ _ h)
   all_goals gtr_auto
 
 end Ckl.Gen
